@@ -67,7 +67,26 @@ fn evaluator_case(run: &Run, case_seed: u64) {
     cfg.p_unreachable = 0.0;
     // "with deterministic selection": multi-task jobs with more than one pickup or delivery are evaluated over randomly
     // sampled task permutations; only single-task jobs and pickup+delivery pairs (one fixed permutation) are offered
-    let gp = generate(&mut rng, &cfg);
+    let mut gp = generate(&mut rng, &cfg);
+    // near ties: the first vehicle type gets three twins which differ only in the distance cost coefficient, by 2e-8
+    // relative each, so that the same job is quoted with costs a few 1e-7 apart for their (empty) tours: a reducer which
+    // is not an exact minimum (e.g. one comparing with a tolerance, which is not transitive) then depends on the work split
+    let near_ties = rng.chance(0.4);
+    if near_ties {
+        if let Some(first) = gp.problem["fleet"]["vehicles"].get(0).cloned() {
+            for i in 1..=3 {
+                let mut twin = first.clone();
+                twin["typeId"] = json!(format!("twin{i}"));
+                twin["vehicleIds"] = json!([format!("twin{i}_0")]);
+                let cd = twin["costs"]["distance"].as_f64().unwrap_or(1.0).max(0.5);
+                twin["costs"]["distance"] = json!(cd * (1.0 + i as f64 * 2e-8));
+                gp.problem["fleet"]["vehicles"].as_array_mut().unwrap().push(twin);
+            }
+            run.observe("evaluator_cases", "vehicle twins with near-tie cost coefficients");
+        }
+    } else {
+        run.observe("evaluator_cases", "plain");
+    }
     let ReadOutcome::Ok(problem) = read_problem(&gp) else {
         run.inconclusive("generated problem rejected by reader");
         return;
@@ -262,6 +281,7 @@ fn main() {
     par_for(3, solve_cases, &|| !run.has_time(), &|i| solve_case(&run, mix(run.seed ^ 0x5151, i), layouts[(i as usize) % layouts.len()]));
     run.floor("evaluate_all runs compared", run.observed("pool_threads", "16"), 20);
     run.floor("distinct per-thread partitions observed", run.observed("distinct_thread_partitions", "total"), 50);
+    run.floor("evaluator cases with near-tie costs (vehicle twins)", run.observed("evaluator_cases", "vehicle twins with near-tie cost coefficients"), 20);
     run.floor("pickup+delivery pairs offered to evaluate_all", run.observed("offered_jobs", "pickup+delivery pair"), 20);
     run.floor("sequential scans with a feasible insertion", run.observed("sequential_outcome", "success"), 10);
     for l in layouts.iter() {
